@@ -19,11 +19,11 @@ macro "tie_arith" : tactic => `(tactic| (
 /-- Go's truncated `/` and `%` are the Euclidean ones on a non-negative dividend (side goals by `omega`,
     products of non-negative factors included) -/
 macro "tdiv_norm" : tactic => `(tactic| try
-  simp (disch := first | omega | (apply Int.mul_nonneg <;> omega) | (apply Int.natCast_nonneg)) only
+  simp (disch := first | omega | (apply Int.mul_nonneg <;> omega) | (apply Int.natCast_nonneg) | (apply Int.le_of_lt; apply Int.pow_pos; decide)) only
     [Int.tdiv_eq_ediv_of_nonneg, Int.tmod_eq_emod_of_nonneg])
 
 macro "tdiv_norm" "at" h:ident : tactic => `(tactic| try
-  simp (disch := first | omega | (apply Int.mul_nonneg <;> omega) | (apply Int.natCast_nonneg)) only
+  simp (disch := first | omega | (apply Int.mul_nonneg <;> omega) | (apply Int.natCast_nonneg) | (apply Int.le_of_lt; apply Int.pow_pos; decide)) only
     [Int.tdiv_eq_ediv_of_nonneg, Int.tmod_eq_emod_of_nonneg] at $h:ident)
 
 /-- closes `model = translated` goals between `Bool`-valued functions built from comparisons, `&&`, `||`, `!`, `if` -/
@@ -42,6 +42,20 @@ theorem emod_le_self (a p : Int) (ha : 0 ≤ a) (hp : 0 < p) : a % p ≤ a := by
   have := Int.emod_def a p
   have h1 : 0 ≤ a / p := Int.ediv_nonneg ha (Int.le_of_lt hp)
   have h2 : 0 ≤ p * (a / p) := Int.mul_nonneg (Int.le_of_lt hp) h1
+  omega
+
+/-- Go's `/` and `%` of two non-negative quantities, whatever the syntactic form of the dividend `x`: use as
+    `rw [tdiv_cast _ D b ?_]`, the side goal `x = ↑D` is linear -/
+theorem tdiv_cast (x : Int) (D b : Nat) (h : x = (D : Int)) : Int.tdiv x (b : Int) = ((D / b : Nat) : Int) := by
+  subst h; rw [Int.tdiv_eq_ediv_of_nonneg (Int.natCast_nonneg _)]; exact (Int.natCast_ediv _ _).symm
+
+theorem tmod_cast (x : Int) (D b : Nat) (h : x = (D : Int)) : Int.tmod x (b : Int) = ((D % b : Nat) : Int) := by
+  subst h; rw [Int.tmod_eq_emod_of_nonneg (Int.natCast_nonneg _)]; exact Int.ofNat_mod_ofNat D b
+
+theorem clearlow_nonneg (e k : Int) (h : 0 ≤ e) : 0 ≤ clearlow e k := by
+  unfold clearlow
+  have hp : (0 : Int) < 2 ^ k.toNat := Int.pow_pos (by decide)
+  have := emod_le_self e _ h hp
   omega
 
 theorem shl_one (k : Nat) : shl 1 (k : Int) = 2 ^ k := by
